@@ -28,11 +28,15 @@ pub struct Case {
     raw: (i64, i64),
     invalid: bool,
     coroutine: bool,
+    /// coroutine callers only: before the timed call the coroutine waited for a socket and that wait
+    /// timed out (its registration and token stay behind); this long into the timed call the socket
+    /// becomes readable
+    stale_ready_at: Option<u64>,
 }
 
 impl Case {
     fn to_json(&self) -> Value {
-        json!({"call": self.call, "requested_ns": self.req, "raw": [self.raw.0.to_string(), self.raw.1.to_string()], "invalid": self.invalid, "caller": if self.coroutine { "coroutine" } else { "thread" }})
+        json!({"call": self.call, "requested_ns": self.req, "raw": [self.raw.0.to_string(), self.raw.1.to_string()], "invalid": self.invalid, "caller": if self.coroutine { "coroutine" } else { "thread" }, "earlier_socket_wait_becomes_ready_at_ns": self.stale_ready_at})
     }
     fn from_json(v: &Value) -> Option<Case> {
         Some(Case {
@@ -41,6 +45,7 @@ impl Case {
             raw: (v.get("raw")?.get(0)?.as_str()?.parse().ok()?, v.get("raw")?.get(1)?.as_str()?.parse().ok()?),
             invalid: v.get("invalid")?.as_bool()?,
             coroutine: v.get("caller")?.as_str()? == "coroutine",
+            stale_ready_at: v.get("earlier_socket_wait_becomes_ready_at_ns").and_then(Value::as_u64),
         })
     }
 }
@@ -156,10 +161,28 @@ pub fn exec(c: &Case, em: &mut Emitter) {
     if c.coroutine {
         let out: Arc<Mutex<Option<(u64, u64, i64, i32, Value)>>> = Arc::new(Mutex::new(None));
         let (o2, c2) = (out.clone(), c.clone());
+        let started: Arc<Mutex<Option<u64>>> = Arc::new(Mutex::new(None));
+        let st2 = started.clone();
+        let mut sv = [-1; 2];
+        if c.stale_ready_at.is_some() {
+            unsafe {
+                assert_eq!(0, libc::socketpair(libc::AF_UNIX, libc::SOCK_STREAM, 0, sv.as_mut_ptr()));
+                let tv = libc::timeval { tv_sec: 0, tv_usec: 5_000 };
+                assert_eq!(0, libc::setsockopt(sv[0], libc::SOL_SOCKET, libc::SO_RCVTIMEO, std::ptr::from_ref(&tv).cast(), size_of::<libc::timeval>() as u32));
+            }
+        }
+        let rfd = sv[0];
         let _ = lp
             .pool()
             .submit_task(Some("c14-task".into()), move |_| {
+                if rfd >= 0 {
+                    // a hooked read that times out after 5 ms
+                    let mut b = [0u8; 1];
+                    let r = sc::read(None, rfd, b.as_mut_ptr().cast(), 1);
+                    assert_eq!(-1, r, "the preparing read must time out");
+                }
                 let t0 = now();
+                *st2.lock().unwrap() = Some(t0);
                 let (r, e, x) = do_call(&c2);
                 *o2.lock().unwrap() = Some((t0, now(), r, e, x));
                 Some(0)
@@ -167,7 +190,15 @@ pub fn exec(c: &Case, em: &mut Emitter) {
             .expect("submit");
         // the loop thread's own cycle: wait_event(SLICE) until the task is done or the horizon
         let mut turns = 0u64;
+        let mut written = false;
         while out.lock().unwrap().is_none() && now() < T0 + HORIZON + 50 * MS {
+            if let (false, Some(at), Some(t0)) = (written, c.stale_ready_at, *started.lock().unwrap()) {
+                if now() >= t0 + at {
+                    let b = [9u8];
+                    assert_eq!(1, unsafe { libc::write(sv[1], b.as_ptr().cast(), 1) });
+                    written = true;
+                }
+            }
             let _ = lp.wait_event(Some(SLICE));
             turns += 1;
             if turns > 100_000 {
@@ -176,7 +207,7 @@ pub fn exec(c: &Case, em: &mut Emitter) {
         }
         let taken = out.lock().unwrap().take();
         match taken {
-            Some((t0, t1, r, e, x)) => em.emit(json!({"t":"returned","elapsed_ns": t1 - t0, "ret": r, "errno": e, "extra": x, "loop_turns": turns})),
+            Some((t0, t1, r, e, x)) => em.emit(json!({"t":"returned","elapsed_ns": t1 - t0, "ret": r, "errno": e, "extra": x, "loop_turns": turns, "peer_written": written})),
             None => em.emit(json!({"t":"not_returned","virtual_elapsed_ns": now() - T0, "loop_turns": turns})),
         }
     } else {
@@ -194,7 +225,16 @@ pub fn cases(tier: &str) -> Vec<Case> {
     let mut v = Vec::new();
     let thorough = tier == "thorough";
     for coroutine in [true, false] {
-        let mut add = |call: &str, req: Option<u64>, raw: (i64, i64), invalid: bool| v.push(Case { call: call.into(), req, raw, invalid, coroutine });
+        let mut add = |call: &str, req: Option<u64>, raw: (i64, i64), invalid: bool| {
+            v.push(Case { call: call.into(), req, raw, invalid, coroutine, stale_ready_at: None });
+            if let (true, false, Some(r)) = (coroutine, invalid, req) {
+                if r >= 100 * MS {
+                    for at in [r / 4, r / 2 + 3 * MS] {
+                        v.push(Case { call: call.into(), req, raw, invalid, coroutine, stale_ready_at: Some(at) });
+                    }
+                }
+            }
+        };
         for s in [0i64, 1, 2] {
             add("sleep", Some(s as u64 * 1000 * MS), (s, 0), false);
         }
@@ -282,6 +322,13 @@ pub fn judge(c: &Case, res: &ChildResult, rep: &mut Report) {
                 rep.violation("c14.timed/return-value-as-native/nanosleep-rmtp", format!("{} ({who}): remaining time reported as {}", c.to_json(), r["extra"]["rmtp"]), replay());
             }
             rep.witness(if c.coroutine { "coroutine_callers" } else { "thread_callers" });
+            if c.stale_ready_at.is_some() {
+                if r["peer_written"] == json!(true) {
+                    rep.witness("stale_socket_became_ready_during_the_wait");
+                } else {
+                    rep.machinery_errors.push(format!("c14: {}: the peer was never written", c.to_json()));
+                }
+            }
         }
     }
 }
@@ -290,8 +337,9 @@ pub fn run(tier: &str, rep: &mut Report) {
     let cs = cases(tier);
     rep.bounds = json!({"calls":["sleep","usleep","nanosleep","poll","select","pthread_cond_timedwait"],"callers":["coroutine on a synchronous loop","plain thread"],
         "timeouts":"0, smallest unit, 999us, 1ms, 10ms-1, 10ms, 10ms+1, 15ms, 100ms, 1s, 2.5s (per call's unit); infinite for poll/select",
+        "stale_readiness": "coroutine callers, waits >= 100 ms: an earlier hooked read of the same coroutine timed out and its socket becomes readable a quarter / half way into the timed call",
         "slack_ns": SLACK, "horizon_ns": HORIZON, "cases": cs.len()});
-    rep.require(&["coroutine_callers", "thread_callers", "invalid_arguments_compared_with_native", "infinite_waits_checked"]);
+    rep.require(&["coroutine_callers", "thread_callers", "invalid_arguments_compared_with_native", "infinite_waits_checked", "stale_socket_became_ready_during_the_wait"]);
     for c in cs.iter().step_by((cs.len() / 4).max(1)).take(4) {
         rep.sample(c.to_json());
     }
